@@ -1646,6 +1646,8 @@ func runC15(r *Rng, tier string, n int) {
 
 	// ---- W. how the sender composes its envelopes beside the record split: question section, header bits, OPT, compression (shape.go)
 	shapeFamilies(r, thorough)
+	// ---- W2. error RCODEs carried in the OPT record's extended bits, OPT anywhere in the additional section (shape.go)
+	extRcodeFamilies(r, thorough)
 
 	// ---- V. TSIG key and algorithm names spelled in mixed case, against the harness's own RFC 8945 signer / verifier (names.go)
 	namesFamilies(r, thorough)
